@@ -350,3 +350,127 @@ Example C08_testbench_order_example :
      (2%nat, [-1; 9]); (2%nat, [-1; 10]); (2%nat, [-9; 0])].
 Proof. vm_compute. reflexivity. Qed.
 Print Assumptions C08_testbench_order_example.
+
+(* ---------------------------------------------------------------- translated source (translator unit "pysim") *)
+(* coq/Gen/PySimGen.v is regenerated from /repo/amaranth/sim/pysim.py on every run; Proofs/GenEqPySim.v proves the
+   regenerated state classes and loops equal to / refined by the model above (abstractions stated there). *)
+From V.Proofs Require GenEqPySim.
+From V.Gen Require PySimGen.
+
+(* _run_wakers: every waker is called once, in order, with the same arguments; those returning True stay *)
+Theorem C08_translated_run_wakers (A W : Type) (call : nat -> A -> W -> bool * W) wakers args w :
+  PySimGen.run_wakers call wakers args w = Some (GenEqPySim.retain call args wakers w).
+Proof. exact (GenEqPySim.gen_run_wakers_eq call wakers args w). Qed.
+Print Assumptions C08_translated_run_wakers.
+
+(* _PySignalState.__init__ / reset: the initial slots of the model *)
+Theorem C08_translated_signal_init inits :
+  map (fun v => match PySimGen.PySignalState_init v with Some g => GenEqPySim.abs_slot g false | None => Slot 0 0 false end)
+      inits = init_slots inits.
+Proof. exact (GenEqPySim.gen_init_slots_eq inits). Qed.
+Print Assumptions C08_translated_signal_init.
+Theorem C08_translated_signal_reset g :
+  PySimGen.PySignalState_reset g =
+  Some (PySimGen.Build_PySignalState (PySimGen.PySignalState_signal_init g) (PySimGen.PySignalState_is_comb g)
+          (PySimGen.PySignalState_signal_init g) (PySimGen.PySignalState_signal_init g) (PySimGen.PySignalState_wakers g)).
+Proof. exact (GenEqPySim.gen_signal_reset_eq g). Qed.
+Print Assumptions C08_translated_signal_reset.
+
+(* _PySignalState.update(value, mask) of the state object with index i = slot_apply of the write (i, value, mask):
+   masked merge into `next`, registration in `pending` exactly when `next` changes; nothing else is touched *)
+Theorem C08_translated_signal_update i g p v m :
+  exists g' p',
+    PySimGen.PySignalState_update i g p v m = Some (g', p') /\
+    GenEqPySim.abs_slot g' (GenEqPySim.mem i p') = slot_apply i (GenEqPySim.abs_slot g (GenEqPySim.mem i p)) (W i v m) /\
+    PySimGen.PySignalState_signal_init g' = PySimGen.PySignalState_signal_init g /\
+    PySimGen.PySignalState_is_comb g' = PySimGen.PySignalState_is_comb g /\
+    PySimGen.PySignalState_wakers g' = PySimGen.PySignalState_wakers g /\
+    (forall j, j <> i -> GenEqPySim.mem j p' = GenEqPySim.mem j p).
+Proof. exact (GenEqPySim.gen_signal_update_eq i g p v m). Qed.
+Print Assumptions C08_translated_signal_update.
+
+(* _PySignalState.commit(): False and no effect when curr == next; else wakers run with (curr, next), curr := next, True *)
+Theorem C08_translated_signal_commit (W : Type) (call : nat -> Z * Z -> W -> bool * W) g w :
+  PySimGen.PySignalState_commit call g w =
+  if PySimGen.PySignalState_curr g =? PySimGen.PySignalState_next g then Some (false, g, w)
+  else let (wk, w') := GenEqPySim.retain call (PySimGen.PySignalState_curr g, PySimGen.PySignalState_next g)
+                         (PySimGen.PySignalState_wakers g) w in
+       Some (true, PySimGen.Build_PySignalState (PySimGen.PySignalState_signal_init g) (PySimGen.PySignalState_is_comb g)
+                     (PySimGen.PySignalState_next g) (PySimGen.PySignalState_next g) wk, w').
+Proof. exact (GenEqPySim.gen_signal_commit_eq call g w). Qed.
+Print Assumptions C08_translated_signal_commit.
+
+(* _PyEngineState.commit(): for ANY order o, iterating `pending` in the order induced by o = the model's commit phase
+   (fold of commit_slot over o, then clear_pending); the value returned is `converged` *)
+Theorem C08_translated_engine_commit ps cm ini icf o st :
+  PySimGen.PyEngineState_commit (GenEqPySim.notify_call ps) cm (fun l => l)
+    (filter (GenEqPySim.flagged (e_slots st)) o) (GenEqPySim.heap_of ini icf (e_slots st)) None (e_procs st, e_tbs st)
+  = let (st3, ch) := fold_left (commit_slot ps) o (st, false) in
+    Some (negb ch, [], GenEqPySim.heap_of ini icf (clear_pending (e_slots st3)), (e_procs st3, e_tbs st3)).
+Proof. exact (GenEqPySim.gen_engine_commit_eq ps cm ini icf o st). Qed.
+Print Assumptions C08_translated_engine_commit.
+
+(* _PyTimeline.set_waker: the deadline stored is now + interval *)
+Theorem C08_translated_timeline_set_waker tl d k :
+  exists tl', PySimGen.PyTimeline_set_waker tl d k = Some tl' /\
+    PySimGen.PyTimeline_now tl' = PySimGen.PyTimeline_now tl /\
+    forall k', PySimGen.py_dict_get Nat.eqb (PySimGen.PyTimeline_wakers tl') k' =
+               if Nat.eqb k k' then Some (PySimGen.PyTimeline_now tl + d)
+               else PySimGen.py_dict_get Nat.eqb (PySimGen.PyTimeline_wakers tl) k'.
+Proof. exact (GenEqPySim.gen_timeline_set_waker_eq tl d k). Qed.
+Print Assumptions C08_translated_timeline_set_waker.
+
+(* _PyTimeline.advance(): `now` becomes the earliest deadline D; exactly the wakers with deadline D run (once each, in
+   the set's iteration order) and are removed; False and no effect on an empty timeline *)
+Theorem C08_translated_timeline_advance (W : Type) (cd : nat -> W -> W) ord tl w :
+  (forall l, Permutation (ord l) l) -> NoDup (map fst (PySimGen.PyTimeline_wakers tl)) ->
+  Forall (fun kv => PySimGen.PyTimeline_now tl <= snd kv) (PySimGen.PyTimeline_wakers tl) ->
+  PySimGen.PyTimeline_advance cd ord tl w =
+  match zmin_list (map snd (PySimGen.PyTimeline_wakers tl)) with
+  | None => Some (false, tl, w)
+  | Some D => Some (true,
+                    PySimGen.Build_PyTimeline D (filter (fun kv => negb (snd kv =? D)) (PySimGen.PyTimeline_wakers tl)),
+                    fold_left (fun w k => cd k w) (ord (GenEqPySim.due D (PySimGen.PyTimeline_wakers tl))) w)
+  end.
+Proof. exact (GenEqPySim.gen_timeline_advance_eq cd ord tl w). Qed.
+Print Assumptions C08_translated_timeline_advance.
+
+(* ... which is the model's tl_advance when the dict holds the model's deadlines *)
+Theorem C08_translated_timeline_advance_model (W : Type) (cd : nat -> W -> W) ord tl w st :
+  (forall l, Permutation (ord l) l) -> NoDup (map fst (PySimGen.PyTimeline_wakers tl)) ->
+  Forall (fun kv => PySimGen.PyTimeline_now tl <= snd kv) (PySimGen.PyTimeline_wakers tl) ->
+  PySimGen.PyTimeline_now tl = e_now st -> map snd (PySimGen.PyTimeline_wakers tl) = deadlines st ->
+  exists tl' w',
+    PySimGen.PyTimeline_advance cd ord tl w = Some (negb (PySimGen.py_is_empty (deadlines st)), tl', w') /\
+    PySimGen.PyTimeline_now tl' = e_now (tl_advance st) /\
+    w' = (if PySimGen.py_is_empty (deadlines st) then w
+          else fold_left (fun w k => cd k w)
+                 (ord (GenEqPySim.due (e_now (tl_advance st)) (PySimGen.PyTimeline_wakers tl))) w) /\
+    map snd (PySimGen.PyTimeline_wakers tl') = filter (fun d => negb (d =? e_now (tl_advance st))) (deadlines st).
+Proof. exact (GenEqPySim.gen_timeline_advance_model cd ord tl w st). Qed.
+Print Assumptions C08_translated_timeline_advance_model.
+
+(* PySimEngine.step_design() with the callbacks instantiated by the model's phases = settle *)
+Theorem C08_translated_step_design ps orc procs fuel eng st :
+  (forall n, o_proc (orc n) = procs) -> PySimGen.PySimEngine__processes eng = procs ->
+  PySimGen.PySimEngine__vcd_writers eng = [] ->
+  option_map snd
+    (PySimGen.PySimEngine_step_design (GenEqPySim.m_get_active orc) (fun st => st) GenEqPySim.m_trig_run
+       GenEqPySim.m_runnable GenEqPySim.m_set_runnable (GenEqPySim.m_proc_run ps) (GenEqPySim.m_commit ps orc)
+       (fun l => l) (S fuel) eng st)
+  = let (st', conv) := settle ps orc fuel st in if conv then Some st' else None.
+Proof. exact (GenEqPySim.gen_step_design_eq ps orc procs fuel eng st). Qed.
+Print Assumptions C08_translated_step_design.
+
+(* PySimEngine.advance(): whenever it returns, world and result are those of the model's advance *)
+Theorem C08_translated_advance ps orc procs f eng st r eng' st' :
+  (forall n, o_proc (orc n) = procs) -> PySimGen.PySimEngine__processes eng = procs ->
+  PySimGen.PySimEngine__vcd_writers eng = [] ->
+  PySimGen.PySimEngine__testbenches eng = seq 0 (length (e_tbs st)) ->
+  PySimGen.PySimEngine_advance (GenEqPySim.m_get_active orc) (fun st => st) GenEqPySim.m_trig_run GenEqPySim.m_runnable
+    GenEqPySim.m_set_runnable (GenEqPySim.m_proc_run ps) (fun _ _ => false) GenEqPySim.m_tb_runnable
+    GenEqPySim.m_tb_set_runnable (GenEqPySim.m_tb_run ps orc f) GenEqPySim.m_tb_critical (GenEqPySim.m_commit ps orc)
+    GenEqPySim.m_timeline_advance (fun l => l) (S f) eng st = Some (r, eng', st') ->
+  advance ps orc f f st = (st', r).
+Proof. exact (GenEqPySim.gen_advance_eq ps orc procs f eng st r eng' st'). Qed.
+Print Assumptions C08_translated_advance.
